@@ -398,6 +398,13 @@ func main() {
 	sp(&ctor{name: "OutPtr_K2K3", resultObj: true, ptrObj: true, deps: P("K0"), outs: []out{{typ: "K2"}, {typ: "K3", key: "k"}}, hasErr: true})
 	sp(&ctor{name: "OutPtr_S5S6", resultObj: true, ptrObj: true, outs: []out{{typ: "S5"}, {typ: "S6", group: "g"}}})
 	sp(&ctor{name: "OutPtr_K0K1", resultObj: true, ptrObj: true, markerLast: true, outs: []out{{typ: "K0"}, {typ: "K1"}}})
+	// result objects with exactly ONE live field (keyed, with an error result, grouped, with a
+	// dependency, marker last): the documented equivalent of As + Name
+	sp(&ctor{name: "Out1_K0k", resultObj: true, outs: []out{{typ: "K0", key: "k"}}})
+	sp(&ctor{name: "Out1_K1e", resultObj: true, outs: []out{{typ: "K1"}}, hasErr: true})
+	sp(&ctor{name: "Out1_K2g", resultObj: true, deps: P("K0"), outs: []out{{typ: "K2", group: "g"}}})
+	sp(&ctor{name: "Out1_S5", resultObj: true, markerLast: true, outs: []out{{typ: "S5"}}})
+	sp(&ctor{name: "Out1_S0p", resultObj: true, ptrObj: true, outs: []out{{typ: "S0"}}, hasErr: true})
 	writeTypes()
 	writeCtors()
 }
